@@ -51,6 +51,9 @@ void h_nng_ctx_recv(void) { nng_ctx c; nng_aio *a; VP_HAVOC_GHOSTS(); nng_ctx_re
 void h_nng_aio_set_timeout(void) { nng_aio *a; nni_duration d; VP_HAVOC_GHOSTS(); nng_aio_set_timeout(a, d); VP_CANARY(); }
 void h_nng_aio_set_expire(void) { nng_aio *a; nng_time t; VP_HAVOC_GHOSTS(); nng_aio_set_expire(a, t); VP_CANARY(); }
 void h_nng_aio_start(void) { nng_aio *a; nng_aio_cancelfn fn; void *arg; VP_HAVOC_GHOSTS(); nng_aio_start(a, fn, arg); VP_CANARY(); }
+void h_nng_aio_abort(void) { nng_aio *a; nng_err rv; VP_HAVOC_GHOSTS(); nng_aio_abort(a, rv); VP_CANARY(); }
+void h_nng_aio_cancel(void) { nng_aio *a; VP_HAVOC_GHOSTS(); nng_aio_cancel(a); VP_CANARY(); }
+void h_nng_aio_finish(void) { nng_aio *a; nng_err rv; VP_HAVOC_GHOSTS(); nng_aio_finish(a, rv); VP_CANARY(); }
 void h_nng_ctx_sendmsg(void) { nng_ctx c; nng_msg *m; int flags; VP_HAVOC_GHOSTS(); nng_ctx_sendmsg(c, m, flags); VP_CANARY(); }
 void h_nng_ctx_recvmsg(void) { nng_ctx c; nng_msg **mp; int flags; VP_HAVOC_GHOSTS(); nng_ctx_recvmsg(c, mp, flags); VP_CANARY(); }
 void h_nng_send(void) { nng_socket s; const void *b; size_t n; int flags; VP_HAVOC_GHOSTS(); nng_send(s, b, n, flags); VP_CANARY(); }
